@@ -27,7 +27,7 @@ PROFILE = {# raw doc actions of an OLD undo list replayed against a document tha
            "detach_summary": 1, "display_formula": 4, "add_rule": 4, "add_ref_column": 4, "reverse_column": 2,
            "rename_column": 3, "rename_table": 2, "duplicate_table": 1.5, "add_table": 4, "add_column": 5,
            "add_formula_column": 4, "modify_type": 3, "undo_earlier": 3, "malformed": 2, "add_record": 6,
-           "update_record": 6, "remove_record": 4, "ref_into_summary": 4, "remove_summary_widget": 4}
+           "update_record": 6, "remove_record": 4, "ref_into_summary": 4, "remove_summary_widget": 4, "hide_field": 4}
 CFG = {"oracles": ("replica",), "n_bundles": 14, "profile": PROFILE, "hook": "gx.props.c09.install"}
 TIE_KINDS = ("meta-refs", "doc-P", "driver")
 
@@ -157,10 +157,53 @@ def setup_cascade(h):
       yield [["RemoveViewSection", sec["id"]]]
 
 
+def setup_hidden_groupby(h):
+  """A summary widget grouped by two columns, one of whose group-by fields is hidden; then that source column is
+  removed (the summary table must be re-pointed / replaced for EVERY widget showing it) and columns are added
+  to whatever summary tables remain."""
+  from gx.gen_hist import World
+  rng, gen = h.rng, h.gen
+  w = World(h.doc)
+  ts = [t for t in w.user_tables()]
+  if not ts:
+    return
+  t = rng.choice(ts)
+  cands = [c for c in w.data_cols(t) if c["type"].split(":")[0] in ("Int", "Text", "Choice", "Bool", "Numeric")]
+  if len(cands) < 2:
+    return
+  gbc = rng.sample(cands, 2)
+  yield [["CreateViewSection", t["ref"], 0, "record", [c["ref"] for c in gbc], None]]
+  if rng.random() < 0.4:
+    yield [["CreateViewSection", t["ref"], 0, "record", [gbc[0]["ref"]], None]]
+  k = rng.randint(1, 4)
+  w = World(h.doc)
+  yield [["BulkAddRecord", t["tableId"], [None] * k,
+          {c["colId"]: [gen.value_for(w, c, allow_bad=False) for _ in range(k)] for c in w.data_cols(w.tables[t["tableId"]])}]]
+  victim = rng.choice(gbc)
+  w = World(h.doc)
+  widgets = set(s_["id"] for s_ in w.sections if s_.get("parentId"))
+  mine = [f for f in w.fields if f.get("parentId") in widgets and
+          w.cols_by_ref.get(f["colRef"], {}).get("summarySourceCol") == victim["ref"]]
+  if mine and rng.random() < 0.8:
+    yield [["RemoveRecord", "_grist_Views_section_field", rng.choice(mine)["id"]]]
+  else:
+    ua = gen.g_hide_field(w)
+    if ua:
+      yield [ua]
+  yield [["RemoveColumn", t["tableId"], victim["colId"]]]
+  w = World(h.doc)
+  for st in w.user_tables(summary=True):
+    if rng.random() < 0.8:
+      yield [["AddColumn", st["tableId"], gen.new_name(), {"type": "Any", "isFormula": True, "formula": "len($group)"}]]
+
+
 def install(h, cfg):
   specs = ref_specs()
-  if h.rng.random() < 0.4:
+  r = h.rng.random()
+  if r < 0.3:
     h.setup = setup_cascade
+  elif r < 0.65:
+    h.setup = setup_hidden_groupby
   h.extra_oracles.append(lambda hh, rec: oracle(hh, rec, specs))
   if h.tie is not None:
     def extra(doc, res):
@@ -199,7 +242,7 @@ def run(ck):
                     "wrong-typed cells in reference columns are ignored (as the engine's relations ignore them)",
                     "raw writes of arbitrary ids into metadata reference columns are outside the quantifier (not generated)"]
   ck.lean(["GristProps.C09"])
-  merged = _hist.run_histories(ck, CFG, n_quick=16, n_thorough=1500)
+  merged = _hist.run_histories(ck, CFG, n_quick=24, n_thorough=1500)
   _hist.report(ck, merged, PROP, TIE_KINDS)
 
 
